@@ -54,4 +54,13 @@ META = {
     design_ref='DESIGN.md 6/C13',
     note='Outputs returned together with a salvaged error are not constrained (the statement is silent).',
     technique='TLA+ call-level state machine + TLC trace validation over an exhaustive input matrix'),
+ 'C19': dict(
+    text='MiddlewareAlgebra.tla defines each simple middleware as an operator on a handler call (result + message state) and Run() evaluates arbitrary compositions; '
+         'TLC checks, for every chain up to length 2 (3 in thorough) and every script up to length 2, that the effect ends with the call, the deadline is visible only '
+         'during it, error-neutral chains are transparent and do not change Retry\'s attempt count, nothing escapes an outer Recoverer; the legacy Timeout design is '
+         'rejected. Real chains are run on scripted handlers and each call (what the handler observed at every invocation, result, message state afterwards, delay '
+         'metadata) is validated by TLC against Run(); Throttle start times are validated against the token rule',
+    design_ref='DESIGN.md 6/C19',
+    note='Retry uses zero intervals here (timing is C12). DelayOnError is exercised on fail^k sequences only (no failure after a success on the same message).',
+    technique='TLA+ operator algebra of middlewares evaluated by TLC, used as oracle in trace validation of real compositions'),
 }
